@@ -163,6 +163,31 @@ class Extractor
 
   std::string typeStr(QualType T) { return T.getAsString(); }
 
+  // shape of a scalar type: "iw" = bit width of an integer type (negative when
+  // signed), "ps" = size in bytes of the pointee of a pointer to a complete
+  // object type.  Rules use these instead of tables of typedef names.
+  template <class FS> void typeShape(FS&, QualType T)
+  {
+    if (T.isNull())
+      return;
+    QualType C = T.getCanonicalType();
+    if (C->isDependentType() || C->isIncompleteType())
+      return;
+    if (C->isIntegralOrEnumerationType())
+    {
+      int64_t w = (int64_t) Ctx.getTypeSize(C);
+      J.attribute("iw", C->isSignedIntegerOrEnumerationType() ? -w : w);
+    }
+    else if (C->isPointerType())
+    {
+      QualType P = C->getPointeeType();
+      if (!P->isIncompleteType() && !P->isFunctionType() && !P->isDependentType())
+        J.attribute("ps", (int64_t) Ctx.getTypeSizeInChars(P).getQuantity());
+      else if (P->isVoidType())
+        J.attribute("ps", (int64_t) 1);
+    }
+  }
+
   std::string canonStr(QualType T)
   {
     return T.getCanonicalType().getUnqualifiedType().getAsString();
@@ -605,6 +630,7 @@ class Extractor
             J.attribute("m", m);
           J.attribute("name", VD->getName());
           J.attribute("t", typeStr(VD->getType()));
+          typeShape(S, VD->getType());
           std::string pr2 = pointeeRecord(VD->getType());
           if (!pr2.empty())
             J.attribute("prec", pr2);
@@ -850,6 +876,7 @@ class Extractor
         }
         commonAttrs(S, St, parent);
         J.attribute("t", typeStr(E->getType()));
+        typeShape(S, E->getType());
         std::string pr = pointeeRecord(E->getType());
         if (!pr.empty())
           J.attribute("prec", pr);
@@ -1014,6 +1041,7 @@ class Extractor
           J.object([&] {
             J.attribute("name", PV->getName());
             J.attribute("type", typeStr(PV->getType()));
+            typeShape(S, PV->getType());
             std::string pr = pointeeRecord(PV->getType());
             if (!pr.empty())
               J.attribute("prec", pr);
@@ -1123,6 +1151,7 @@ class Extractor
           J.object([&] {
             J.attribute("name", VD->getName());
             J.attribute("type", typeStr(VD->getType()));
+            typeShape(S, VD->getType());
             std::string pr = pointeeRecord(VD->getType());
             if (!pr.empty())
               J.attribute("prec", pr);
